@@ -135,6 +135,14 @@ CHECKS = {
             'closed, never-issued, next-to-be-issued and huge numbers (incl. as directory handle and repeated close), bytes through '
             'fds 0-2 reach the prepared files, pre-opens report their path; the agent runs under AddressSanitizer.',
             'Trusts ASan to expose reads/frees of released host memory.', 'DESIGN.md section 7 C13'),
+    'C14': ('F3 WASI agent + Hypothesis RuleBasedStateMachine + libFuzzer target c/fz_resolvepath.c',
+            'stateful PBT differential against the host kernel (path operations on a mirror tree, lengths up to 2*PATH_MAX, '
+            'non-NUL-terminated guest paths), a standard fd_readdir client with resume/restart against os.listdir/lstat, and a '
+            'coverage-guided libFuzzer campaign on resolvePath with the join oracle inside the target (ASan, exact-size buffers)',
+            'Model-based history search: every path-taking call through pre-open and opened directory descriptors is mirrored by '
+            'the POSIX call; empty and over-long paths must be rejected without effect and without sanitizer report; listings must '
+            'be complete, exactly-once, resumable from any cookie and restartable; resolvePath is fuzzed in process.',
+            'tmpfs directory offsets are stable; the kernel is the reference for errno values.', 'DESIGN.md section 7 C14'),
 }
 
 NOT_YET = {}
